@@ -14,6 +14,7 @@ import threading  # noqa: E402
 import queue  # noqa: E402
 
 from .sched import S, IO, DONE, NEW, _real_allocate  # noqa: E402
+from . import sched as _sched  # noqa: E402
 
 _real_sleep = time.sleep
 _real_monotonic = time.monotonic
@@ -172,6 +173,11 @@ def _bootstrap_inner(self):
         return _orig_bootstrap_inner(self)
     S.child_enter(st)
     try:
+        if S.slow_starts:
+            try:
+                S.maybe_slow_start(st)
+            except _sched.Abort:
+                return  # the run ended while this thread was still waiting for its first slice
         _orig_bootstrap_inner(self)
     finally:
         S.thread_exit(st)
